@@ -8,7 +8,7 @@ wt=$1; patch=$2; demo=$3; dest=$4; shift 4
 export CARGO_NET_OFFLINE=true CARGO_TARGET_DIR=$wt/target
 cd "$wt" || exit 2
 mkdir -p "$wt/target"
-git checkout -q -- . && git clean -fdq -e target
+git checkout -q -- . && git clean -fdq -e target -e _seed
 git apply "$patch" || { echo "SEED: patch does not apply"; exit 2; }
 cargo test --workspace --no-fail-fast --offline > "$wt/target/suite.log" 2>&1
 rc=$?
@@ -22,5 +22,5 @@ git apply -R "$patch"
 "$@" > "$wt/target/demo_without.log" 2>&1; without=$?
 echo "SEED: demonstration without the change: exit=$without"
 rm -f "$dest"
-git checkout -q -- . && git clean -fdq -e target
+git checkout -q -- . && git clean -fdq -e target -e _seed
 if [ $rc -eq 0 ] && [ $with -ne 0 ] && [ $without -eq 0 ]; then echo "SEED: CONFIRMED"; else echo "SEED: NOT CONFIRMED"; exit 1; fi
